@@ -43,6 +43,9 @@ EMBED = {
 }
 
 HOSTILE_INNER = [
+    # template markers (job variables and the like) with blanks inside, bare and INSIDE literals / quoted names: inside a literal they are text
+    "select * from t where d > '{{ PREVIOUS_START_DATETIME }}' and e > {{ START_DATE }} and f = 'Hello {{  user_name  }}!' and g = \"{{ x }}\" and `{{ y }}` = 1",
+    "select '{{PREVIOUS_START_DATE}}', '{ { a } }', '{{a}} {{ b }}', '${ v }', '<% t %>', '[[ w ]]' from t",
     # literals with the prefixes other SQL flavours give them, numbers of every spelling: letters and digits around quotes are text too
     "select E'a\\nb', N'x', X'00FF', b'0101', _utf8'x', U&'d', n'y', e'z' from t",
     "select * from t where a = E'it''s' and b = x'AB' and c = 1e5 and d = .5 and e = 5. and f = 0x1F and g = 1.e3",
